@@ -4,7 +4,7 @@
    message crosses (frontend endpoint gates, request-server gates, daemon
    handler) are modelled as far as they decide whether the handler runs.
    Tied to the code by the correspondence family "dmn". *)
-From VV Require Import Base.Bits Base.Rt Base.Val Gen.GenConsts Gen.GenRoute Gen.GenBitmap Gen.GenCtl.
+From VV Require Import Base.Bits Base.Rt Base.Val Gen.GenConsts Gen.GenRoute Gen.GenBitmap Gen.GenCtl Gen.GenWk.
 Open Scope string_scope.
 Open Scope list_scope.
 Open Scope N_scope.
@@ -554,7 +554,7 @@ Fixpoint poll (fuel : nat) (s : dstate) (events : list val) : dstate * list val 
                   match cur with
                   | Some f0 =>
                       (* read_kick leaves the counter alone and reports "not enabled" for a disabled ring *)
-                      if negb (r_enabled r) then (s, events) else
+                      if wk_rk_d1 (r_enabled r) then (s, events) else      (* REGENERATED (Gen.GenWk) *)
                       if pending_of s f0 =? 0 then
                         (* a stale registration woke the worker but the current descriptor is not readable: the
                            non-blocking read fails and the worker thread ends with an error *)
